@@ -545,6 +545,13 @@ func checkValidatorGates(e *Engine, r *Report, rule string, names []string, exem
 				if errResultIndex(fn) == len(ret.Results)-1 {
 					for i := 0; i < len(ret.Results)-1; i++ {
 						if bt, ok := ret.Results[i].Type().Underlying().(*types.Basic); ok && bt.Kind() == types.Bool && isBool {
+							if cand := retOperand(ret, i); cand != v {
+								if _, isC := isConstBool(cand); !isC {
+									if _, isPhi := cand.(*ssa.Phi); !isPhi && !e.dependsOn(cand, func(x ssa.Value) bool { return x == v }, 1) {
+										continue // a bool result that has nothing to do with the verdict
+									}
+								}
+							}
 							lastv = retOperand(ret, i)
 							if lastv == v {
 								return false // the verdict itself is passed on
